@@ -38,8 +38,45 @@ def potable_inproc(text):
   return read_config(text)
 
 
+class SizedSink(object):
+  """A destination that supports write() and nothing else of the file protocol, and that has a length (the number of
+  characters received): like a list or a buffer class it is FALSY while empty.  The documentation asks for "a file object
+  supporting write()" only."""
+
+  def __init__(self):
+    self._chunks = []
+
+  def write(self, text):
+    if not isinstance(text, str):
+      raise TypeError("write() argument must be str, not %s" % type(text).__name__)
+    self._chunks.append(text)
+    return len(text)
+
+  def __len__(self):
+    return sum(len(c) for c in self._chunks)
+
+  def getvalue(self):
+    return "".join(self._chunks)
+
+
+_SINK_COUNT = [0]
+
+
+def text_sink(key=None):
+  """The destination handed to a text writer: mostly io.StringIO, every third time a SizedSink (by `key` when given, so
+  that a replayed case gets the same kind; else by call count)."""
+  import zlib
+  if key is None:
+    _SINK_COUNT[0] += 1
+    pick = _SINK_COUNT[0] % 3 == 0
+  else:
+    pick = zlib.crc32(repr(key).encode()) % 3 == 0
+  return SizedSink() if pick else io.StringIO()
+
+
 def write_tab(tab, fp=None):
-  fp = fp if fp is not None else (io.BytesIO() if tab.target in BINARY_TARGETS else io.StringIO())
+  if fp is None:
+    fp = io.BytesIO() if tab.target in BINARY_TARGETS else text_sink((tab.target, getattr(tab, "nr", 0), getattr(tab, "cutoff", 0)))
   tab.write(fp)
   return fp.getvalue()
 
@@ -268,14 +305,17 @@ def eam_api_objects(model, wrap=None):
         zf = lambda r: 7.0
         dd["Zz"] = zf
         dd["Q9"] = zf
-      df = dd
+      df = OnDemandMapping(dd) if model.get("api_density_lookup") == "on_demand" else dd
     else:
       node = spec.ZERO
       for ent in model["density"]:
         if ent[0] == s:
           node = ent[1]
       df = mk(node, ("dens", s))
-    eams.append(EAMPotential(s, Z, mass, ef, df, a0, lat))
+    ep = EAMPotential(s, Z, mass, ef, df, a0, lat)
+    if model.get("api_density_lookup") == "on_demand" and model["type"] != "fs":
+      ep = on_demand_eam(ep)
+    eams.append(ep)
 
   def pots(key):
     return [Potential(a, b, mk(n, (key, a, b))) for a, b, n in model.get(key) or []]
@@ -284,6 +324,55 @@ def eam_api_objects(model, wrap=None):
   if model["type"] == "adp":
     out += [pots("dipole"), pots("quadrupole")]
   return out
+
+
+class OnDemandMapping(object):
+  """species -> density function, the function object being made when it is asked for (functools.partial of one
+  parametrised function is the usual way): every lookup returns a NEW callable, nothing keeps the earlier ones alive."""
+
+  def __init__(self, d):
+    self._d = d
+
+  def __getitem__(self, k):
+    import functools
+    return functools.partial(_call_with, self._d[k])
+
+  def __iter__(self):
+    return iter(self._d)
+
+  def __len__(self):
+    return len(self._d)
+
+  def __contains__(self, k):
+    return k in self._d
+
+  def keys(self):
+    return self._d.keys()
+
+  def get(self, k, default=None):
+    return self[k] if k in self._d else default
+
+
+def _call_with(f, x):
+  return f(x)
+
+
+def on_demand_eam(ep):
+  """An EAMPotential whose embedding and density functions are bound methods: each attribute access yields a new object."""
+  from atsim.potentials import EAMPotential
+
+  class MethodsEAM(EAMPotential):
+    def __init__(self, src):
+      self.__dict__.update({k: v for k, v in src.__dict__.items() if k not in ("embeddingFunction", "electronDensityFunction")})
+      self._ef, self._df = src.embeddingFunction, src.electronDensityFunction
+
+    def embeddingFunction(self, rho):
+      return self._ef(rho)
+
+    def electronDensityFunction(self, r):
+      return self._df(r)
+
+  return MethodsEAM(ep)
 
 
 def vary_containers(model, objs):
@@ -317,7 +406,7 @@ def eam_tab_api(model, wrap=None):
     from atsim.potentials import EAMPotential
     last = objs[1][-1]
     zero = lambda x: 0.0
-    dens = dict((k_, zero) for k_ in last.electronDensityFunction) if isinstance(last.electronDensityFunction, dict) else zero
+    dens = dict((k_, zero) for k_ in last.electronDensityFunction) if hasattr(last.electronDensityFunction, "keys") else zero
     standin = EAMPotential(last.species, 1, 1.0, zero, dens)
     tab = cls(objs[0][:-1], objs[1][:-1] + [standin], *objs[2:], *grid)
     write_tab(tab)
